@@ -34,8 +34,12 @@ MANIFEST = {
 # patterns of NEAR (the main enumeration is over spans 0-2)
 # span 4 starts at time zero
 # spans 5 and 6 share only the start / only the end with span 0
-SPANS = [(1000000, 2000000), (2000000, 3500000), (4000000, 4000001), (1000400, 2000300), (0, 1000000), (1000000, 3000000), (500000, 2000000)]
-NEAR = [(0, 5), (5, 0), (0, 6), (6, 0), (0, 5, 0), (6, 0, 5), (0, 0, 5), (5, 5, 0), (4,), (4, 4), (4, 0), (4, 4, 1), (4, 4, 4), (0, 4, 4), (4, 1, 4, 4), (0, 3), (3, 0), (3, 3), (0, 3, 0), (0, 0, 3), (3, 0, 0), (3, 3, 0), (1, 0, 3), (0, 3, 1), (0, 3, 3, 0), (2, 3, 0, 1), (0, 3, 0, 3, 0)]
+# the last two: an hour into the programme and one microsecond apart at both ends (different spans, however small the
+# difference is relative to the values)
+SPANS = [(1000000, 2000000), (2000000, 3500000), (4000000, 4000001), (1000400, 2000300), (0, 1000000), (1000000, 3000000), (500000, 2000000),
+         (3600000000, 3601000000), (3600000001, 3601000001)]
+NEAR = [(0, 5), (5, 0), (0, 6), (6, 0), (0, 5, 0), (6, 0, 5), (0, 0, 5), (5, 5, 0), (4,), (4, 4), (4, 0), (4, 4, 1), (4, 4, 4), (0, 4, 4), (4, 1, 4, 4), (0, 3), (3, 0), (3, 3), (0, 3, 0), (0, 0, 3), (3, 0, 0), (3, 3, 0), (1, 0, 3), (0, 3, 1), (0, 3, 3, 0), (2, 3, 0, 1), (0, 3, 0, 3, 0),
+        (7, 8), (8, 7), (7, 7, 8), (7, 8, 8), (7, 8, 7), (0, 7, 8), (8,)]
 SKEWS = [0.5, 1, 1.001, 4]
 OFFSETS = ["-10s", "-first", "-1us", "0", "+1s"]
 
